@@ -902,7 +902,7 @@ pub fn run(tape: &mut Tape, props: Props, thorough: bool, trace_on: bool, force:
         let _ = d.start_query(cx, "host.example", DnsQueryType::A);
         let _ = d.start_query(cx, "printer.local", DnsQueryType::Aaaa);
     }
-    node.sockets.add(d);
+    let h_dns = node.sockets.add(d);
     if medium == Medium::Ethernet {
         node.sockets.add(dhcpv4::Socket::new());
         // nobody applies the leases the adversary hands out in this scenario
@@ -919,14 +919,15 @@ pub fn run(tape: &mut Tape, props: Props, thorough: bool, trace_on: bool, force:
     let ctx6: Ctx6 = vec![];
     let desc = format!("adversary medium={:?} mtu={} slaac={} csum={:?}", medium, mtu, slaac, cfg.csum);
     let mut a = Adv { tape, props, node, view, medium, now: 1_000_000, stats: Stats::default(), hash: LogHash::new(), trace: vec![], trace_on, events: 0, v4, v6a, p4: IpAddr::V4([10, 0, 0, 2]), p6, seqno: 0, tcp_est: Some((40000, 81, 0, 0)), dns_q: vec![], dhcp_xid: None, history: vec![], h_tcp_conn, ctx6 };
-    let r = body(&mut a, thorough, h_udp);
+    let r = body(&mut a, thorough, h_udp, h_dns);
     let nontrivial = a.stats.get("adv.frames") >= 10 && a.stats.get("adv.mutated") >= 1;
     a.stats.add("sim.seconds", (a.now / 1_000_000) as u64);
     let viol = r.err();
     Outcome { viol, stats: a.stats, hash: a.hash, nontrivial, trace: a.trace, sim_us: a.now, events: a.events, cfg_desc: desc }
 }
 
-fn body(a: &mut Adv, thorough: bool, h_udp: SocketHandle) -> Result<(), Violation> {
+fn body(a: &mut Adv, thorough: bool, h_udp: SocketHandle, h_dns: SocketHandle) -> Result<(), Violation> {
+    let mut dns_handles: Vec<dns::QueryHandle> = vec![];
     a.poll()?;
     let n = a.tape.range(10, if thorough { 600 } else { 150 });
     for _ in 0..n {
@@ -999,6 +1000,54 @@ fn body(a: &mut Adv, thorough: bool, h_udp: SocketHandle) -> Result<(), Violatio
                 a.poll()?;
             }
             continue;
+        }
+        // ---- rarely used API calls between frames: leaving / joining multicast groups, cancelling and restarting
+        // DNS queries, reading query results
+        if a.tape.draw(16) == 0 {
+            match a.tape.draw(6) {
+                0 if a.medium != Medium::Ieee802154 && a.v4.is_some() => {
+                    let iface = &mut a.node.iface;
+                    let _ = guard("leave_multicast_group", || iface.leave_multicast_group(smoltcp::wire::Ipv4Address::new(224, 0, 0, 66)))?;
+                }
+                1 if a.medium != Medium::Ieee802154 && a.v4.is_some() => {
+                    let iface = &mut a.node.iface;
+                    let _ = guard("join_multicast_group", || iface.join_multicast_group(smoltcp::wire::Ipv4Address::new(224, 0, 0, 66)))?;
+                }
+                2 => {
+                    let iface = &mut a.node.iface;
+                    let g = smoltcp::wire::Ipv6Address::new(0xff02, 0, 0, 0, 0, 0, 0, 0x42);
+                    if a.tape.draw(2) == 0 {
+                        let _ = guard("join_multicast_group", || iface.join_multicast_group(g))?;
+                    } else {
+                        let _ = guard("leave_multicast_group", || iface.leave_multicast_group(g))?;
+                    }
+                }
+                3 => {
+                    let n = &mut a.node;
+                    let cx = n.iface.context();
+                    let s = n.sockets.get_mut::<dns::Socket>(h_dns);
+                    let name = *a.tape.pick(&["again.example", "trailing.dot.example.", "x.local", "a", "printer.local"]);
+                    if let Ok(Ok(hq)) = guard("dns::start_query", || s.start_query(cx, name, DnsQueryType::A)) {
+                        dns_handles.push(hq);
+                    }
+                }
+                4 => {
+                    if let Some(hq) = dns_handles.pop() {
+                        let s = a.node.sockets.get_mut::<dns::Socket>(h_dns);
+                        guard("dns::cancel_query", || s.cancel_query(hq))?;
+                    }
+                }
+                _ => {
+                    if let Some(hq) = dns_handles.last().copied() {
+                        let s = a.node.sockets.get_mut::<dns::Socket>(h_dns);
+                        let done = guard("dns::get_query_result", || !matches!(s.get_query_result(hq), Err(dns::GetQueryResultError::Pending)))?;
+                        if done {
+                            dns_handles.pop();
+                        }
+                    }
+                }
+            }
+            a.stats.inc("adv.api-calls");
         }
         // ---- one adversarial frame
         let kind = a.tape.draw(12);
